@@ -179,6 +179,14 @@ impl QueryEngine {
         cache.update_entry(&key, entry.common, entry.parsed);
     }
 
+    /// Forget the typed module of `key` (its parsed entry stays), so that it is type-checked again.
+    pub fn clear_typed_module_cache_entry(&self, key: &ModuleCacheKey) {
+        let mut cache = self.module_cache.write();
+        if let Some(entry) = cache.get_mut(key) {
+            entry.typed = None;
+        }
+    }
+
     pub fn update_typed_module_cache_entry(&self, key: &ModuleCacheKey, entry: TypedModuleInfo) {
         let mut cache = self.module_cache.write();
         cache.get_mut(key).unwrap().set_typed(entry);
